@@ -3,6 +3,7 @@ package idem
 import (
 	"fmt"
 	"strings"
+	"time"
 
 	"github.com/gofiber/fiber/v3/middleware/idempotency"
 
@@ -125,6 +126,7 @@ func runMemlock(e *ev.Env, w *witnesses) {
 		var schedules, blockedSeen int64
 		one := func(ch sched.Chooser) *sched.Outcome {
 			m := &mlRun{s: sched.New(), lk: idempotency.NewMemoryLock(), inCS: map[string]int{}, holder: map[string]int{}}
+			m.s.DeadlockCap = time.Second // MemoryLock has no timers: idling cannot release anybody
 			for wi, rounds := range ms.Workers {
 				m.s.Go(fmt.Sprintf("w%d", wi), m.worker(wi, rounds))
 			}
